@@ -15,7 +15,8 @@ UPSTREAM_DECKS = True
 LEVEL = 'exploration'
 RULE = ('one transformed object per case: {attach point: TR number on the '
         'surface card, TRCL by number, inline TRCL with 3/12/13 entries, '
-        '*TRCL in degrees, implicit surface 1000*cell+surface} x {rotation '
+        '*TRCL in degrees, implicit surface 1000*cell+surface, a matrix given '
+        'by one vector only with an object symmetric about it} x {rotation '
         'class: identity, translation, generic, axis permutation, 180-degree '
         'flips, quarter turn, 1e-12 off axis} with the surface kind '
         '(elementary incl. one-sheet cones, tori, SQ/GQ; macrobodies) and the '
@@ -25,9 +26,11 @@ RULE = ('one transformed object per case: {attach point: TR number on the '
 ASSUMPTIONS = [
     'main = O + B^T aux with B1..B9 the cosines of the auxiliary axes in the '
     'main frame; starred forms in degrees (MCNP manual, TR card)',
-    'the reference moves the *untransformed* object by that motion; the '
-    '3-entry matrix completion (one vector) is judged only by the rotation '
-    'contracts, never by geometry',
+    'the reference moves the *untransformed* object by that motion; a matrix '
+    'given by one vector only (3 entries, or 9 positions with J) leaves the '
+    'other two vectors to MCNP: it is judged with objects that are '
+    'symmetric about the given auxiliary axis, whose image does not depend '
+    'on the completion',
     'TRIPOLI-4 conventions of vt/t4eval.py; TatSu shim',
 ]
 ANCHORS = ['Transformation.py:transformation', 'transformation_quad',
@@ -70,14 +73,91 @@ def monitor_counts():
     return dict(monitors.COUNTS)
 
 
+VECTORS = ['+x', '-x', '+y', '-y', '+z', '-z', 'generic', 'near+x',
+           'near-x', 'near-y']
+
+
 def plan(tier):
     return [(f'{att}|{rot}', _PER[tier]) for att in ATTACH
-            for rot in ROT_CLASSES]
+            for rot in ROT_CLASSES] + \
+        [(f'one-vector|{vec}', _PER[tier]) for vec in VECTORS]
+
+
+def build_one_vector(case, vclass):
+    '''A matrix of which only one vector (row i: the auxiliary axis i in the
+    main frame) is given.  The moved object is symmetric about that axis.'''
+    rng = case.rng
+    i = rng.randrange(3)
+    if vclass == 'generic':
+        vec = np.array([rng.gauss(0, 1) for _ in range(3)])
+    elif vclass.startswith('near'):
+        # within the cone where an implementation may switch helper vectors
+        vec = np.zeros(3)
+        k = 'xyz'.index(vclass[-1])
+        vec[k] = 1.0 if vclass[4] == '+' else -1.0
+        tilt = rng.choice([1e-9, 1e-5, 1e-3, 0.02, 0.04, 0.05])
+        vec[(k + 1) % 3] = tilt * rng.choice([-1, 1])
+        vec[(k + 2) % 3] = tilt * rng.uniform(-1, 1)
+    else:
+        vec = np.zeros(3)
+        vec['xyz'.index(vclass[1])] = 1.0 if vclass[0] == '+' else -1.0
+    vec = vec / np.linalg.norm(vec)
+    # any proper rotation whose row i is the vector
+    helper = np.eye(3)[int(np.argmin(abs(vec)))]
+    second = np.cross(vec, helper)
+    second /= np.linalg.norm(second)
+    third = np.cross(vec, second)
+    bmat = np.zeros((3, 3))
+    bmat[i], bmat[(i + 1) % 3], bmat[(i + 2) % 3] = vec, second, third
+    org = [round(rng.uniform(-3, 3), 3) for _ in range(3)]
+    motion = ref.Motion(org, bmat)
+    axis = 'xyz'[i]
+    pos = round(rng.uniform(-1.5, 1.5), 3)
+    rad = round(rng.uniform(0.8, 2.0), 3)
+    kind, params = rng.choice([
+        ('p' + axis, [pos]), ('c' + axis, [rad]), ('s' + axis, [pos, rad]),
+        ('so', [rad]), ('k' + axis, [pos, round(rng.uniform(0.2, 1.5), 3)]),
+        ('k' + axis, [pos, round(rng.uniform(0.2, 1.5), 3),
+                      rng.choice([-1, 1])]),
+        ('t' + axis, [pos if k == i else 0.0 for k in range(3)]
+         + [round(rng.uniform(1.5, 2.5), 3), round(rng.uniform(0.3, 0.9), 3),
+            round(rng.uniform(0.3, 0.9), 3)])])
+    sur = M.Surf(1, kind, params)
+    deck = probe_deck([sur], [M.S(-1), M.S(1)],
+                      title=f'C04 one-vector {vclass} {kind}')
+    ent = [None] * 9
+    ent[3 * i:3 * i + 3] = [float(v) for v in vec]
+    if i == 0 and rng.random() < 0.6:
+        ent = ent[:3]               # the plain three-value form
+    form = rng.choice(['card', 'inline'])
+    if form == 'card':
+        card = M.TrCard(7, org, ent, motion=motion)
+        deck.trs = [card]
+        if rng.random() < 0.5:
+            sur.tr = 7
+        else:
+            for cel in deck.cells:
+                if cel.id != 900:
+                    cel.trcl = M.TrSpec(number=7)
+    else:
+        for cel in deck.cells:
+            if cel.id != 900:
+                cel.trcl = M.TrSpec(origin=org, entries=list(ent),
+                                    motion=motion)
+    deck.tags.update({'attach.one-vector', f'vector.{vclass}', f'row.{i + 1}',
+                      f'kind.{kind}', f'form.{form}'})
+    cen = motion.to_main(np.array([pos if k == i else 0.0 for k in range(3)]))
+    deck.hints = [cen + np.array(off) for off in
+                  ((0, 0, 0), (1, 0, 0), (0, 1, 0), (0, 0, 1), (-1, -1, -1))]
+    deck.case_motion = motion
+    return deck
 
 
 def build(case):
     rng = case.rng
     attach, rot = case.family.split('|')
+    if attach == 'one-vector':
+        return build_one_vector(case, rot)
     if attach == 'trcl-inline3':
         rot = 'translation'
     kind, fam = KINDS[(case.index * 5 + rng.randrange(len(KINDS))) % len(KINDS)]
